@@ -82,8 +82,8 @@ FAMILIES = {
                                      Strategies={'revkids', 'rotkids', 'revrels', 'revall'}),
                          invariants=['InvWellFormed', 'L11_Eq']),
         'thorough': dict(module='FMEqGen', spec='ESpec', emit='EEmit', emit_all=False,
-                         consts=dict(N=5, MaxKids=4, MinHi=1, Axes={'ctc'}, MaxCtc=1, CtcDepth=1, CtcBinOps={'AND', 'IMPLIES'},
-                                     Strategies={'revkids', 'rotkids', 'revrels', 'revctcs', 'revall'}),
+                         consts=dict(N=5, MaxKids=4, MinHi=0,
+                                     Strategies={'revkids', 'rotkids', 'revrels', 'revall'}),
                          invariants=['InvWellFormed', 'L11_Eq']),
     },
     'Eq3': {   # three single-feature constraints: repeated constraints, edits that make one equal to another
@@ -152,6 +152,9 @@ def fmt_families(fmt, ops, attr_vals=None, star=False, abstract=True, extra=None
         }
     if extra:
         fams.update(extra)
+    # thorough budget: sampled (seeded) above this many cases per family - UVL costs ~20 ms per document
+    for spec in fams.values():
+        spec['thorough'].setdefault('cap', 5000 if fmt == 'uvl' else 15000)
     return fams
 
 
